@@ -126,12 +126,19 @@ fn eval_any_expr(start_node: &tree_sitter::Node, source: &str, pc: Option<usize>
             }
         },
         "pchar" => {
+            // while the line is being typed the literal can be a lone quote
             let txt = node.utf8_text(source.as_bytes())?;
-            Ok(txt.as_bytes()[1] as i64)
+            match txt.as_bytes().get(1) {
+                Some(c) => Ok(*c as i64),
+                None => Err(Box::new(Error::ExpressionEvaluation))
+            }
         },
         "nchar" => {
             let txt = node.utf8_text(source.as_bytes())?;
-            Ok(txt.as_bytes()[1] as i64 + 0x80)
+            match txt.as_bytes().get(1) {
+                Some(c) => Ok(*c as i64 + 0x80),
+                None => Err(Box::new(Error::ExpressionEvaluation))
+            }
         },
         "current_addr" => {
             match pc {
